@@ -88,7 +88,7 @@ def main():
             env2 = dict(ENV, VERIF_REPO=wt2, VERIF_EVIDENCE_DIR=evd, VERIF_REPLAY_DIR=evd)
             try:
                 for c in checks:
-                    p = subprocess.run(["./check", c, tier], cwd="/verif", env=env2, stdout=subprocess.PIPE, stderr=subprocess.STDOUT, timeout=3600)
+                    p = subprocess.run(["./check", c, tier], cwd=os.environ.get("VERIF_HOME", "/verif"), env=env2, stdout=subprocess.PIPE, stderr=subprocess.STDOUT, timeout=3600)
                     outc = p.stdout.decode("utf-8", "replace")
                     lines = [l for l in outc.splitlines() if l.startswith(("VIOLATION", "OK ", "UNDECIDED", "KNOWN-FINDING", "violated:"))]
                     res["checks"][c] = {"rc": p.returncode, "tier": tier, "lines": [l[:400] for l in lines]}
